@@ -206,6 +206,8 @@ class Fold:
             self.scalarize(a), self.scalarize(b))
 
     def scalarize(self, v):
+        if v is sp.true or v is sp.false:
+            return S(str(v))
         if isinstance(v, Matrix):
             return S("mat{" + ",".join(str(x) for x in v) + "}")
         if isinstance(v, tuple):
@@ -241,10 +243,13 @@ class Fold:
     def ite(self, c, a, b):
         if isinstance(a, Matrix) and isinstance(b, Matrix) and a.shape == b.shape:
             return Matrix(a.shape[0], a.shape[1], lambda i, j: self.ite(c, a[i, j], b[i, j]))
-        if not isinstance(a, tuple) and not isinstance(b, tuple) and not isinstance(a, Matrix) and not isinstance(b, Matrix):
-            if sp.simplify(a - b) == 0:
-                return a
-        return F("ite")(S(self.cond_str(c)), self.scalarize(a), self.scalarize(b))
+        try:
+            if not isinstance(a, tuple) and not isinstance(b, tuple) and not isinstance(a, Matrix) and not isinstance(b, Matrix):
+                if a == b or sp.expand(a - b) == 0:
+                    return a
+            return F("ite")(S(self.cond_str(c)), self.scalarize(a), self.scalarize(b))
+        except TypeError:
+            return S("ite(%s,%s,%s)" % (self.cond_str(c), a, b))
 
     def cond_str(self, c):
         if isinstance(c, tuple):
